@@ -278,6 +278,68 @@ def op_reject(w, ins):
         w.put_file('bad.p', _pk.dumps(dict(vars=vars_, succ=succ, roots=[3]), protocol=2))
         ok, v = call(w, g.api.load, 'bad.p')
         _after(w, ok, v, 'load of a pickle with an inconsistent node table')
+    elif kind == 'bad_everywhere':
+        # one more family: every public entry point given a node, a name or a
+        # level that does not exist (seeded choice of entry point)
+        if a is None:
+            return 'skip'
+        sn = w.snapshot(m)
+        order = sn.order or []
+        n_bad = max(sn.succ) + 2 + ins.get('pos', 0) % 6
+        if ins.get('neg'):
+            n_bad = -n_bad
+        t = ins.get('t', 0) % 14
+        what = None
+        if raw:
+            b_ = g.raw
+            if t == 0:
+                what, (ok, v) = 'ite with an unknown node', call(w, b_.ite, a.ref, n_bad, a.ref)
+            elif t == 1:
+                what, (ok, v) = 'quantify of an unknown node', call(w, b_.quantify, n_bad, [order[0]] if order else [], False)
+            elif t == 2:
+                what, (ok, v) = 'support of an unknown node', call(w, b_.support, n_bad)
+            elif t == 3:
+                what, (ok, v) = 'pick_iter of an unknown node', call(w, lambda: list(b_.pick_iter(n_bad)))
+            elif t == 4:
+                what, (ok, v) = 'descendants of an unknown node', call(w, b_.descendants, [a.ref, n_bad])
+            elif t == 5:
+                what, (ok, v) = 'incref of an unknown node', call(w, b_.incref, n_bad)
+            elif t == 6:
+                what, (ok, v) = 'collect_garbage rooted at an unknown node', call(w, b_.collect_garbage, [a.ref, n_bad])
+            elif t == 7:
+                what, (ok, v) = 'dump of an unknown root', call(w, b_.dump, 'bad_root.p', [a.ref, n_bad])
+            elif t == 8 and len(w.mgrs) > 1:
+                what, (ok, v) = 'copy of an unknown node', call(w, b_.copy, n_bad, w.mgrs[1 - m].raw)
+            elif t == 9 and order:
+                lv = len(order) + ins.get('n', 0)
+                what, (ok, v) = 'find_or_add at a level that does not exist', call(w, b_.find_or_add, lv, -1, 1)
+            elif t == 10 and order:
+                what, (ok, v) = 'find_or_add with an unknown child', call(w, b_.find_or_add, 0, n_bad, 1)
+            elif t == 11 and len(order) >= 2:
+                what, (ok, v) = 'reorder_to_pairs with an unknown variable', call(w, D.bdd.reorder_to_pairs, b_, {order[0]: GHOST})
+            elif t == 12 and len(order) >= 2:
+                what, (ok, v) = 'image with overlapping rename', call(w, D.bdd.image, a.ref, b.ref, {order[0]: order[1], order[1]: order[0]}, set(), b_)
+            elif t == 13:
+                what, (ok, v) = 'to_nx of an unknown root', call(w, D.bdd.to_nx, b_, {n_bad})
+        else:
+            api = g.api
+            if t % 7 == 0:
+                what, (ok, v) = 'var_at_level out of range', call(w, api.var_at_level, len(order) + ins.get('n', 0))
+            elif t % 7 == 1:
+                what, (ok, v) = 'level_of_var of an unknown name', call(w, api.level_of_var, GHOST)
+            elif t % 7 == 2:
+                what, (ok, v) = 'let with values of mixed types', call(w, api.let, {order[0]: a.ref, GHOST: True} if order else {GHOST: True}, a.ref)
+            elif t % 7 == 3:
+                what, (ok, v) = 'find_or_add with an unknown variable', call(w, api.find_or_add, GHOST, a.ref, a.ref)
+            elif t % 7 == 4:
+                what, (ok, v) = 'quantify over an unknown name', call(w, lambda f: f.exist(GHOST), a.ref)
+            elif t % 7 == 5:
+                what, (ok, v) = 'dump with an unknown file type', call(w, api.dump, 'x.p', [a.ref], 'nope')
+            else:
+                what, (ok, v) = 'count with a negative number of variables', call(w, api.count, a.ref, -1)
+        if what is None:
+            return 'skip'
+        _after(w, ok, v, what)
     elif kind == 'swap_bad':
         # swap with arguments it must refuse
         if not raw:
@@ -320,7 +382,7 @@ def op_reject(w, ins):
 
 KINDS = ['var', 'let', 'quant', 'cube', 'formula_name', 'formula_syntax', 'formula_node',
          'foreign', 'unknown_node', 'operator', 'arity', 'level', 'order', 'undeclare', 'extension',
-         'load_clash', 'copy_missing_var', 'image_unknown_node', 'load_bad_pickle', 'swap_bad']
+         'load_clash', 'copy_missing_var', 'image_unknown_node', 'load_bad_pickle', 'swap_bad', 'bad_everywhere', 'bad_everywhere']
 
 
 def gen_reject(w, r, cfg):
